@@ -175,7 +175,7 @@ func (r *runner) childEnv(k int) []string {
 func (r *runner) runShard(k, nsh int) {
 	logp := filepath.Join(r.o.WorkDir, fmt.Sprintf("shard.%d.log", k))
 	from := 0
-	restarts := 0
+	restarts, stalls := 0, 0
 	for {
 		errp := filepath.Join(r.o.WorkDir, fmt.Sprintf("shard.%d.%d.err", k, restarts))
 		ef, _ := os.Create(errp)
@@ -240,7 +240,15 @@ func (r *runner) runShard(k, nsh int) {
 			return
 		}
 		if !already {
-			r.isolate(lastB, k, nsh, code, stalled, string(errText))
+			r.isolate(lastB, k, nsh, code, stalled, string(errText), from)
+		}
+		if stalled {
+			stalls++
+			if stalls >= 3 {
+				// a process that keeps going quiet costs minutes each time; three witnesses are enough
+				r.note("shard %d abandoned at case %d after going quiet %d times", k, lastB, stalls)
+				return
+			}
 		}
 		restarts++
 		if restarts > 300 {
@@ -314,7 +322,7 @@ func crashClass(errText string) string {
 }
 
 // isolate re-runs one suspect case alone under CPU and memory limits.
-func (r *runner) isolate(i, k, nsh, batchCode int, stalled bool, batchErr string) {
+func (r *runner) isolate(i, k, nsh, batchCode int, stalled bool, batchErr string, batchFrom int) {
 	logp := filepath.Join(r.o.WorkDir, fmt.Sprintf("iso.%d.log", i))
 	errp := filepath.Join(r.o.WorkDir, fmt.Sprintf("iso.%d.err", i))
 	os.Remove(logp)
@@ -375,6 +383,15 @@ func (r *runner) isolate(i, k, nsh, batchCode int, stalled bool, batchErr string
 		if c := crashClass(batchErr); c != "" && !stalled {
 			res.Verdict, res.Key = "violated", c+"-in-sequence@"+siteFromDump(batchErr)
 			res.Msg = "process died while running this case in sequence (not alone): " + tail(batchErr, 2500)
+			if from, _, _, ok := r.reproduceInSequence(i, k, nsh, batchFrom); ok {
+				res.Case = map[string]interface{}{"index": i, "sequence_from": from}
+			}
+		} else if from, site, dump, ok := r.reproduceInSequence(i, k, nsh, batchFrom); stalled && ok {
+			// the case finishes alone but not after the cases before it: state carried from one operation to the next
+			res.Verdict, res.Key = "violated", "blocked-in-sequence@"+site
+			res.Case = map[string]interface{}{"index": i, "sequence_from": from}
+			res.Msg = fmt.Sprintf("case %d finishes when run alone, but run after cases %d.. of its shard (%d of %d) in one process it never returns: "+
+				"every goroutine with a frame in the library is parked (none running or runnable), twice in two fresh processes. Goroutines:\n%s", i, from, k, nsh, head(dump, 2500))
 		} else {
 			res.Verdict, res.Key = "inconclusive", "suspect-not-reproduced"
 			res.Msg = fmt.Sprintf("case %d: batch exit=%d stalled=%v, isolated re-run finished normally in %v", i, batchCode, stalled, time.Since(t0))
@@ -384,6 +401,139 @@ func (r *runner) isolate(i, k, nsh, batchCode int, stalled bool, batchErr string
 		res.Msg = fmt.Sprintf("signaled=%v timedOut=%v err=%v stderr=%s", signaled, timedOut, werr, tail(string(errText), 1500))
 	}
 	r.add(located{res, i, k})
+}
+
+// runSeq runs cases from..to of shard k in a fresh process. It reports whether the process finished, and otherwise the
+// index it stopped at and its stderr (a goroutine dump when it went quiet and was sent SIGQUIT).
+func (r *runner) runSeq(from, to, k, nsh int, quiet time.Duration) (finished bool, lastB int, errText string) {
+	logp := filepath.Join(r.o.WorkDir, fmt.Sprintf("seq.%d.%d.log", k, to))
+	errp := filepath.Join(r.o.WorkDir, fmt.Sprintf("seq.%d.%d.err", k, to))
+	os.Remove(logp)
+	cmd := exec.Command(r.o.Child, "-prop", r.o.Prop, "-tier", r.o.Tier, "-seed", fmt.Sprint(r.o.Seed),
+		"-shard", fmt.Sprint(k), "-nshards", fmt.Sprint(nsh), "-from", fmt.Sprint(from), "-to", fmt.Sprint(to), "-log", logp)
+	ef, _ := os.Create(errp)
+	cmd.Stderr, cmd.Stdout = ef, ef
+	cmd.Env = r.childEnv(k)
+	if cmd.Start() != nil {
+		ef.Close()
+		return true, -1, ""
+	}
+	done := make(chan error, 1)
+	go func() { done <- cmd.Wait() }()
+	lastSize, lastChange := int64(-1), time.Now()
+	var werr error
+wait:
+	for {
+		select {
+		case werr = <-done:
+			break wait
+		case <-time.After(500 * time.Millisecond):
+			if st, err := os.Stat(logp); err == nil && st.Size() != lastSize {
+				lastSize, lastChange = st.Size(), time.Now()
+			} else if time.Since(lastChange) > quiet {
+				cmd.Process.Signal(syscall.SIGQUIT)
+				select {
+				case werr = <-done:
+				case <-time.After(5 * time.Second):
+					cmd.Process.Kill()
+					werr = <-done
+				}
+				break wait
+			}
+		}
+	}
+	ef.Close()
+	b, _ := os.ReadFile(errp)
+	lastB, hasS, _ := parseLog(logp)
+	return werr == nil && hasS, lastB, string(b)
+}
+
+var reArgs = regexp.MustCompile(`\((?:[^*)][^)]*|\.\.\.)?\)?$`)
+
+var reGoroutineHead = regexp.MustCompile(`^goroutine \d+ (?:gp=\S+ m=\S+(?: mp=\S+)? )?\[([^\],]+)`)
+
+// parkedInRepo reads a goroutine dump. It says yes only when at least one goroutine has a frame in the library and every
+// goroutine that has one is parked on a lock, channel or condition - none of them running, runnable or in a system call.
+// A slow case on a loaded machine therefore never qualifies: its goroutine is running or runnable.
+func parkedInRepo(dump string) (site string, summary string, ok bool) {
+	parked := map[string]bool{"chan send": true, "chan receive": true, "select": true, "select (no cases)": true, "semacquire": true,
+		"sync.Mutex.Lock": true, "sync.RWMutex.Lock": true, "sync.RWMutex.RLock": true, "sync.Cond.Wait": true, "sync.WaitGroup.Wait": true,
+		"chan send (nil chan)": true, "chan receive (nil chan)": true}
+	var lines []string
+	n := 0
+	for _, blk := range strings.Split(dump, "\n\n") {
+		blk = strings.TrimSpace(blk)
+		m := reGoroutineHead.FindStringSubmatch(blk)
+		if m == nil {
+			continue
+		}
+		fn := ""
+		for _, l := range strings.Split(blk, "\n")[1:] {
+			if strings.HasPrefix(l, "\t") {
+				continue
+			}
+			if f := reRepoFrame.FindStringSubmatch(l); f != nil && !strings.Contains(f[1], "verif") {
+				fn = f[1]
+				break
+			}
+		}
+		if fn == "" {
+			continue
+		}
+		n++
+		fn = reArgs.ReplaceAllString(fn, "")
+		lines = append(lines, fmt.Sprintf("[%s] in %s", m[1], fn))
+		if !parked[m[1]] {
+			return "", "", false
+		}
+		if site == "" || (isHelper(site) && !isHelper(fn)) {
+			site = fn
+		}
+	}
+	return site, strings.Join(lines, "\n"), n > 0
+}
+
+// reproduceInSequence is used when a case that stopped its worker finishes normally alone: it re-runs the stretch of the
+// shard's sequence that led to it in fresh processes, shortest suffix first. ok means the sequence from..i ended twice,
+// in two fresh processes, at case i with every library goroutine parked (or with the process dead).
+func (r *runner) reproduceInSequence(i, k, nsh, batchFrom int) (from int, site, dump string, ok bool) {
+	if batchFrom > i {
+		batchFrom = i
+	}
+	stride := nsh
+	if r.info.Sequential {
+		stride = 1
+	}
+	try := func(f int) (string, string, bool) {
+		for rep := 0; rep < 2; rep++ {
+			fin, lastB, errText := r.runSeq(f, i, k, nsh, 20*time.Second)
+			if fin || lastB != i {
+				return "", "", false
+			}
+			if crashClass(errText) != "" && !strings.Contains(errText, "SIGQUIT") {
+				site, dump = siteFromDump(errText), tail(errText, 2500)
+				continue
+			}
+			s, sum, parked := parkedInRepo(errText)
+			if !parked {
+				return "", "", false
+			}
+			site, dump = s, sum
+		}
+		return site, dump, true
+	}
+	for back := 1; ; back *= 4 {
+		f := i - back*stride
+		if f < batchFrom {
+			f = batchFrom
+		}
+		if s, d, good := try(f); good {
+			return f, s, d, true
+		}
+		if f == batchFrom {
+			return 0, "", "", false
+		}
+	}
 }
 
 func tail(s string, n int) string {
@@ -766,6 +916,7 @@ func (r *runner) replay() int {
 		Shard    int
 		Nshards  int
 		Key      string
+		Case     map[string]interface{}
 	}
 	if err := json.Unmarshal(b, &rep); err != nil {
 		fmt.Println("bad replay file:", err)
@@ -781,7 +932,17 @@ func (r *runner) replay() int {
 	if rep.Nshards < 1 {
 		rep.Nshards = 1
 	}
-	r.isolate(rep.Index, rep.Shard, rep.Nshards, 0, false, "")
+	if sf, ok := rep.Case["sequence_from"].(float64); ok {
+		// the witness is a stretch of one shard's sequence, not one case
+		if from, site, dump, ok := r.reproduceInSequence(rep.Index, rep.Shard, rep.Nshards, int(sf)); ok {
+			fmt.Printf("replay: cases %d..%d of shard %d/%d never return (or kill the process) at %s\n%s\n", from, rep.Index, rep.Shard, rep.Nshards, site, dump)
+			fmt.Printf("VIOLATION property=%s replay=%s\n", r.o.Prop, r.o.Replay)
+			return 1
+		}
+		fmt.Printf("replay: the sequence %d..%d of shard %d/%d ran to its end\n", int(sf), rep.Index, rep.Shard, rep.Nshards)
+		return 0
+	}
+	r.isolate(rep.Index, rep.Shard, rep.Nshards, 0, false, "", rep.Index)
 	code := 0
 	for _, x := range r.res {
 		fmt.Printf("replay: case %d verdict=%s key=%s\n  %s\n", x.Index, x.Verdict, x.Key, head(x.Msg, 3000))
